@@ -56,6 +56,38 @@ Legal(PT, T, s, g, c) ==
            /\ n.ch # <<>>
            /\ (p.ch = <<>> \/ Aligns(PT, T, s, p.ch, n.ch, 1, 1))   \* p.ch = <<>>: all children MISSING (issue 1688)
 
+\* ---- C04, first clause, for one pattern ------------------------------------
+\* "all occurrences of the same meta-variable are bound to structurally identical code": two candidate subtrees are
+\* identical code when they have the same kinds, the same number of children at every level and the same leaf texts
+RECURSIVE TreeEq(_, _, _)
+TreeEq(T, a, b) ==
+    \/ a = b
+    \/ /\ T[a].kid = T[b].kid /\ Len(T[a].ch) = Len(T[b].ch)
+       /\ (T[a].ch = <<>> => T[a].t = T[b].t)
+       /\ \A k \in 1..Len(T[a].ch) : TreeEq(T, T[a].ch[k], T[b].ch[k])
+\* LegalB: a legal alignment in which every occurrence of a captured variable named in `bind` (name :> node, the
+\* bindings the match reported) stands for code identical to that binding
+RECURSIVE LegalB(_, _, _, _, _, _)
+RECURSIVE AlignsB(_, _, _, _, _, _, _, _)
+AlignsB(PT, T, s, gs, cs, i, j, bind) ==
+    IF i > Len(gs) THEN
+        \A k \in j..Len(cs) : SkipCandIn(T[cs[k]], s) \/ SkipCandTail(T[cs[k]], s)
+    ELSE IF IsEllipsis(PT[gs[i]]) THEN
+        \E m \in j..(Len(cs) + 1) : AlignsB(PT, T, s, gs, cs, i + 1, m, bind)
+    ELSE
+        \/ (SkipGoalP(PT[gs[i]], s) \/ AfterEllipsis(PT, gs, i)) /\ AlignsB(PT, T, s, gs, cs, i + 1, j, bind)
+        \/ j <= Len(cs) /\ SkipCandIn(T[cs[j]], s) /\ AlignsB(PT, T, s, gs, cs, i, j + 1, bind)
+        \/ j <= Len(cs) /\ LegalB(PT, T, s, gs[i], cs[j], bind) /\ AlignsB(PT, T, s, gs, cs, i + 1, j + 1, bind)
+LegalB(PT, T, s, g, c, bind) ==
+    LET p == PT[g] n == T[c] IN
+    CASE p.ty = "M" -> /\ ((p.mv.ty \in {"capture", "dropped"} /\ p.mv.named) => n.nm)
+                       /\ ((p.mv.ty = "capture" /\ p.mv.name \in DOMAIN bind) => TreeEq(T, c, bind[p.mv.name]))
+      [] p.ty = "T" -> KindsMatch(p.kid, n.kid) /\ (~p.nm \/ s = "signature" \/ p.t = n.t)
+      [] OTHER ->
+           /\ KindsMatch(p.kid, n.kid)
+           /\ n.ch # <<>>
+           /\ (p.ch = <<>> \/ AlignsB(PT, T, s, p.ch, n.ch, 1, 1, bind))
+
 \* ---- C03, second clause: the reported match length -----------------------
 \* end offset lies in the node and on the end of one of its descendants (never splits a child)
 EndOK(T, c, end) ==
